@@ -9,6 +9,7 @@ import (
 	"fmt"
 	"os"
 	"path/filepath"
+	"runtime"
 	"sort"
 	"strings"
 	"time"
@@ -151,6 +152,8 @@ type X struct {
 	// noncanonical: the token sequence just drawn from an ambiguous alphabet is
 	// not the canonical spelling of its byte string (another execution covers it)
 	noncanonical bool
+	// lastInput: the input most recently drawn with Tokens (for attributing a panic)
+	lastInput []byte
 }
 
 type fail struct {
@@ -241,7 +244,42 @@ func (x *X) Tokens(sp spaces.Space, maxLen int) []byte {
 	if sp.Ambiguous && !sp.Canonical(seq) {
 		x.noncanonical = true
 	}
-	return append(in, sp.Suffix...)
+	in = append(in, sp.Suffix...)
+	x.lastInput = in
+	return in
+}
+
+// protectOrigin is Protect plus the function in which the panic was raised
+// (the first frame below the runtime's panic machinery).
+func protectOrigin(f func()) (panicked bool, val any, origin string) {
+	defer func() {
+		if r := recover(); r != nil {
+			if fe, ok := r.(*mc.FrameworkError); ok {
+				panic(fe)
+			}
+			panicked, val = true, r
+			pcs := make([]uintptr, 64)
+			n := runtime.Callers(2, pcs)
+			frames := runtime.CallersFrames(pcs[:n])
+			seenPanic := false
+			for {
+				fr, more := frames.Next()
+				if strings.HasPrefix(fr.Function, "runtime.") {
+					if fr.Function == "runtime.gopanic" || strings.HasPrefix(fr.Function, "runtime.panic") || strings.HasPrefix(fr.Function, "runtime.goPanic") || fr.Function == "runtime.sigpanic" {
+						seenPanic = true
+					}
+				} else if seenPanic {
+					origin = fr.Function
+					break
+				}
+				if !more {
+					break
+				}
+			}
+		}
+	}()
+	f()
+	return false, nil, ""
 }
 
 // Protect runs f and reports whether it panicked (framework errors propagate).
@@ -270,12 +308,19 @@ func (c *Ctx) Explore(name, doc string, bound, maxLen int, d func(x *X)) {
 	wrap := func(e *mc.Exec) {
 		x := &X{Exec: e, c: c}
 		e.User = x
-		p, val := Protect(func() { d(x) })
+		p, val, origin := protectOrigin(func() { d(x) })
 		if p {
 			x.panicked = true
 			x.fails = nil
-			x.counts = append(x.counts, "driver_panics_skipped")
-			_ = val
+			if strings.Contains(origin, "zombiezen.com/go/commonmark") {
+				// The panic was raised inside the library (not in an oracle): no
+				// property that speaks about the result for every input holds on
+				// an input for which there is no result.
+				x.fails = []fail{{kind: "library-panic", msg: fmt.Sprintf("the library panicked while the driver was using it: %v (raised in %s); the input is the one last drawn from the alphabet, if the driver draws inputs that way; otherwise see the recorded choices", val, origin), input: append([]byte(nil), x.lastInput...)}}
+				x.counts = append(x.counts, "library_panics")
+			} else {
+				x.counts = append(x.counts, "driver_panics_skipped")
+			}
 		}
 	}
 	if c.Replay != nil {
